@@ -197,6 +197,24 @@ fn structural_cases(tier: Tier) -> Vec<Case> {
     ] {
         add(l.to_string(), t);
     }
+    // names that are a float / decimal literal prefix (`f`, `d`, then digits only): as a reference,
+    // a symbol and a field, each followed by a numeric index, a field, and two numeric indices --
+    // the rendering has to keep `f.0` from closing up into one literal, for the bare letter and for
+    // digit runs beyond u64 as well
+    for n in [
+        "f", "d", "f0", "d0", "f5", "d12", "f007", "d18446744073709551615", "f18446744073709551616", "d340282366920938463463374607431768211456",
+        "f99999999999999999999999999999999999999999", "f_", "d_1", "fe1", "f1e5", "f1_0", "df", "fd", "ff1", "e", "e1", "x1", "inf", "nan", "NaN",
+    ] {
+        for (bl, base) in [("ref", RE::reff(n)), ("sym", RE::Sym(n.to_string())), ("field", RE::idxf(RE::reff("x"), n)), ("field-of-sym", RE::idxf(RE::Sym("s".into()), n))] {
+            for i in [0usize, 1, 25, 18446744073709551615] {
+                add(format!("literal-prefix-name/{n}/{bl}/index-{i}"), RE::idxn(base.clone(), i));
+            }
+            add(format!("literal-prefix-name/{n}/{bl}/two-indices"), RE::idxn(RE::idxn(base.clone(), 0), 0));
+            add(format!("literal-prefix-name/{n}/{bl}/field-then-index"), RE::idxn(RE::idxf(base.clone(), n), 3));
+            add(format!("literal-prefix-name/{n}/{bl}/index-under-neg"), RE::un(UnOp::Neg, RE::idxn(base.clone(), 2)));
+            add(format!("literal-prefix-name/{n}/{bl}/index-in-add"), RE::bin(BinOp::Add, RE::idxn(base.clone(), 2), RE::idxn(base.clone(), 4)));
+        }
+    }
     out
 }
 
